@@ -1260,4 +1260,52 @@ theorem squeezeShape_of_ones (axes : List Nat) (t : List Nat)
   | false => simp
   | true => simp [h k hc hk']
 
+
+/-! ## reduction reference shape, adjust_chunks -/
+
+theorem map_mapIdxFrom {α β γ : Type} (f : Nat → α → β) (g : β → γ) (k : Nat) (l : List α) :
+    (mapIdxFrom f k l).map g = mapIdxFrom (fun i a => g (f i a)) k l := by
+  induction l generalizing k with
+  | nil => rfl
+  | cons x xs ih => simp [mapIdxFrom, ih]
+
+theorem mapIdxFrom_map {α β γ : Type} (f : Nat → β → γ) (g : α → β) (k : Nat) (l : List α) :
+    mapIdxFrom f k (l.map g) = mapIdxFrom (fun i a => f i (g a)) k l := by
+  induction l generalizing k with
+  | nil => rfl
+  | cons x xs ih => simp [mapIdxFrom, ih]
+
+theorem reduced_keepdims_shape (x : Chunks) (axes : List Nat) :
+    shapeOf (mapIdxFrom (fun i c => if axes.contains i then [1] else c) 0 x) = reducedShape (shapeOf x) axes true := by
+  unfold shapeOf reducedShape
+  rw [if_pos rfl, map_mapIdxFrom, mapIdxFrom_map]
+  congr 1
+  funext i c
+  split <;> simp
+
+theorem adjust_const_block (c : List Nat) (k b v : Nat) (h : (c.map (fun _ => k))[b]? = some v) :
+    v = k ∧ b < c.length := by
+  have hb := getElem?_lt_length _ _ _ h
+  simp only [List.length_map] at hb
+  simp only [List.getElem?_map] at h
+  rw [List.getElem?_eq_getElem hb] at h
+  simp at h
+  exact ⟨h.symm, hb⟩
+
+
+/-! ## concat: the pieces read for one out block cover it exactly -/
+
+def piecesLen (ps : List (Nat × Nat × Nat)) : Nat := (ps.map (fun p => p.2.2 - p.2.1)).sum
+
+theorem arraySlices_len (lens : List Nat) (i off start stop : Nat) :
+    piecesLen (arraySlices lens i off start stop) = min stop (off + lens.sum) - max start off := by
+  induction lens generalizing i off with
+  | nil => simp [arraySlices, piecesLen]; omega
+  | cons n rest ih =>
+    simp only [arraySlices, piecesLen, List.map_append, List.sum_append, List.sum_cons]
+    have := ih (i + 1) (off + n)
+    simp only [piecesLen] at this
+    rw [this]
+    split <;> simp <;> omega
+
 end Cubed.ShapeCalc
